@@ -1,3 +1,19 @@
-From Flodym Require Import Base.ND.
-Theorem placeholder : True. Proof. exact I. Qed.
-Print Assumptions placeholder.
+(* C19 — exports reproduce every flow and stock under its labels.  Statements only.
+   PARTIAL: the export is a direct projection of the system's objects (convert_to_dict copies
+   references, the CSV writers call to_df, whose row-level faithfulness and round trip are
+   C11_to_df_lists_every_entry_once_under_its_labels / C11_roundtrip_long_layout); proved here is the
+   file-name logic.  Dictionary contents, pandas / pickle / CSV re-import and "export does not alter
+   the system" are checked on the implementation by the correspondence and the oracle. *)
+From Coq Require Import List Arith.
+Import ListNotations.
+From Flodym Require Import Model.Export Proofs.ExportProofs.
+
+Theorem C19_one_csv_file_per_flow :
+  forall names, NoDup (map sanitize names) -> NoDup (flow_files names) /\ length (flow_files names) = length names.
+Proof. exact one_file_per_flow. Qed.
+Print Assumptions C19_one_csv_file_per_flow.
+
+(* the sanitiser on concrete names with spaces, arrows, brackets, upper case *)
+Example ex_C19_sanitize :
+  sanitize [80; 49; 32; 61; 62; 32; 91; 85; 115; 101; 93; 45; 45] = [112; 49; 95; 95; 117; 115; 101].
+Proof. reflexivity. Qed.
